@@ -306,9 +306,16 @@ pub fn run(mut run: Run) -> ! {
     for fam in families(run.quick()) {
         let f2 = fam.clone();
         let masks = if fam.name.starts_with("D1") { 1u64 << fam.m } else { 1 };
+        // family D5 also carries the row names cap / cap__2 (a user name that looks like a generated one)
+        let suffix_names = fam.name.starts_with("D5");
         run.family(fam.name, fam.size() * masks, move |i, l| {
             let mut spec = f2.get(i / masks);
             let mask = i % masks;
+            if suffix_names {
+                for (r, row) in spec.rows.iter_mut().enumerate() {
+                    row.name = if r == 0 { "cap".to_string() } else { format!("cap__{}", r + 1) };
+                }
+            }
             for r in 0..spec.rows.len() {
                 if mask & (1 << r) != 0 {
                     spec.rows[r].name = String::new();
